@@ -21,7 +21,7 @@ EXPLANATION = (
     "set, including never-ending tasks: at most one message is taken after the request, every taken message is processed to the end "
     "before listen() returns unless the timeout elapsed, listen() does return (no stuck state), and with a quota N exactly N messages are accepted."
 )
-ASSUMPTIONS = C04.ASSUMPTIONS + ["hard-kill path and cancellation of listen() are outside", "'promptly' is checked as 'within two poll periods of virtual time once nothing is left to wait for'"]
+ASSUMPTIONS = C04.ASSUMPTIONS + ["hard-kill path and cancellation of listen() are outside", "'promptly' is checked as 'within one second of virtual time after the later of the request, the last completion / acknowledgement and the expiry of wait_tasks_timeout' (the unchanged worker needs one 0.3 s poll)"]
 TRUSTED = C04.TRUSTED
 REQUIRED_COVERS = ["mid_chain_event", "stop_in_flight", "stop_idle", "wtt_elapsed", "never_ending", "quota_shutdown", "taken_after_stop"]
 budget = C04.budget
